@@ -70,7 +70,7 @@ def g_pair(rng):
 def correspondence(ctx):
     basecorr.run(ctx)
     rng = ctx.subrng("corr")
-    n = ctx.budget(15000, 400000)
+    n = ctx.budget(50000, 400000)
     reqs, exp = [], []
     for i in range(n):
         a, b = g_pair(rng)
@@ -180,7 +180,7 @@ def oracle(ctx):
             pairs.append((L.parse_t(toks[off:off + 8]), L.parse_t(toks[off + 8:off + 16])))
         except Exception:
             pass
-    n = ctx.budget(25000, 1000000)
+    n = ctx.budget(80000, 1000000)
     while len(pairs) < n:
         pairs.append(g_pair(rng))
     for a, b in pairs:
